@@ -26,7 +26,7 @@ MIN_BUDGET = 200
 
 TIERS = {
     'quick': {'runs': 40000, 'classes': 8, 'budget_s': 80},
-    'thorough': {'runs': 300000, 'classes': 32, 'budget_s': 1100},
+    'thorough': {'runs': 900000, 'classes': 32, 'budget_s': 1100},
 }
 
 PASSES = ['optimize', 'optimize', 'constant_propagation', 'constant_propagation_loud',
